@@ -12,30 +12,41 @@ import json, os, re, subprocess, glob
 HERE = os.path.dirname(os.path.abspath(__file__))
 CSTUB = os.path.join(HERE, "cstub")
 
-HEADERS = ["types.h", "conntrack_types.h", "nat_types.h", "policy.h", "routes.h", "sendrecv.h", "jump.h"]
+HEADERS = ["types.h", "conntrack_types.h", "nat_types.h", "policy.h", "routes.h", "sendrecv.h", "jump.h",
+           "ifstate.h", "failsafe.h", "counters.h", "rule_counters.h", "qos.h", "conntrack_cleanup.h", "allowsources.h"]
+HEADERS_V4_ONLY = ["ip_v4_fragment.h"]
+# records laid out whether or not a map declaration names them (all `struct X` key/value types of the declared
+# maps are added automatically)
 STRUCTS = ["cali_tc_state", "ip_set_key", "calico_ct_key", "calico_ct_value", "calico_ct_leg", "calico_nat",
            "calico_nat_key", "calico_nat_value", "calico_nat_secondary_key", "calico_nat_dest", "cali_maglev_key",
            "calico_nat_affinity_key", "calico_nat_affinity_val", "sendrec_key", "sendrec_val", "ct_nats_key",
            "cali_rt_key", "cali_rt"]
 # constants / scalar types whose size enters a total-size comparison: name -> C declarator of a char array / member
-CONSTS = {"STATE_SIZE": "char x[STATE_SIZE]", "__u32": "__u32 x"}
+CONSTS = {"STATE_SIZE": "char x[STATE_SIZE]", "__u32": "__u32 x", "MAX_COUNTERS_SIZE": "char x[MAX_COUNTERS_SIZE]"}
+# key/value types that are arrays: their elements become member rows v[0] .. v[n-1]
+ARRAY_TYPES = {"counters_t"}
+MAP_RE = re.compile(r'typeof\(([^;]*?)\)\s*\*\s*key\s*;\s*typeof\(([^;]*?)\)\s*\*\s*value\s*;[^{}]*\}\s*(\w+)\s*__attribute__\(\(section\("\.maps"\)')
 
 
 class TranslateError(Exception):
     pass
 
 
-def _clang(repo, src, ipver, workdir):
+def _clang(repo, src, ipver, workdir, preprocess=False):
     inc = os.path.join(repo, "felix", "bpf-gpl")
     if not os.path.isdir(inc):
         raise TranslateError("no felix/bpf-gpl in %s" % repo)
-    path = os.path.join(workdir, "stub_v%d.c" % ipver)
+    path = os.path.join(workdir, "stub_v%d%s.c" % (ipver, "_E" if preprocess else ""))
     open(path, "w").write(src)
     # -D__x86_64__ : as felix/bpf-gpl/Makefile does for an x86-64 build host; cstub/ stands in for libbpf's headers
     cmd = ["timeout", "120", "clang", "-target", "bpf", "-D__x86_64__", "-w", "-I", CSTUB, "-I", inc,
            "-I/usr/include/x86_64-linux-gnu", "-fsyntax-only", "-Xclang", "-fdump-record-layouts", path]
     if ipver == 6:
         cmd.insert(5, "-DIPVER6")
+    if preprocess:
+        cmd = [c for c in cmd if c not in ("-fsyntax-only", "-Xclang", "-fdump-record-layouts")]
+        cmd.insert(-1, "-E")
+        cmd.insert(-1, "-P")
     r = subprocess.run(cmd, stdout=subprocess.PIPE, stderr=subprocess.PIPE, text=True)
     if r.returncode != 0:
         # A header that no longer parses means the C view cannot be established: that is a failure of the
@@ -83,57 +94,113 @@ def _blocks(dump):
 
 
 def c_view(repo, workdir):
-    """returns (crows, ctotals, info): crows = [(ver, struct, path, off_bits, size_bits)], ctotals = [(ver, name, bytes)]"""
+    """returns (crows, ctotals, info, cmaps):
+       crows   = [(ver, struct, path, off_bits, size_bits)]
+       ctotals = [(ver, name, bytes)]
+       cmaps   = {ver: {map symbol: (key type text, value type text)}}  from the CALI_MAP* declarations"""
     crows, ctotals = [], []
-    info = {}
-    for ver in (4, 6):
-        src = "".join('#include "%s"\n' % h for h in HEADERS)
-        src += "".join('_Static_assert(sizeof(struct %s) > 0, "");\n' % s for s in STRUCTS)
+    info, cmaps = {}, {}
+    import concurrent.futures
+    with concurrent.futures.ThreadPoolExecutor(2) as ex:
+        res = list(ex.map(lambda v: _c_view_ver(repo, workdir, v), (4, 6)))
+    for ver, (cr, ct_, inf, mp) in zip((4, 6), res):
+        crows += cr
+        ctotals += ct_
+        info[ver] = inf
+        cmaps[ver] = mp
+    return crows, ctotals, info, cmaps
+
+
+def _c_view_ver(repo, workdir, ver):
+    crows, ctotals = [], []
+    if True:
+        hdrs = HEADERS + (HEADERS_V4_ONLY if ver == 4 else [])
+        inc = "".join('#include "%s"\n' % h for h in hdrs)
+        # the map declarations, as the preprocessor expands them
+        pre = _clang(repo, inc, ver, workdir, preprocess=True)
+        maps_ = {}
+        for m in MAP_RE.finditer(pre):
+            maps_[m.group(3)] = (" ".join(m.group(1).split()), " ".join(m.group(2).split()))
+        if not maps_:
+            raise TranslateError("no CALI_MAP declaration found in the preprocessed headers (ipver %d)" % ver)
+        structs = list(STRUCTS)
+        for sym, (kt, vt) in sorted(maps_.items()):
+            for t in (kt, vt):
+                mm = re.match(r"struct (\w+)$", t)
+                if mm and mm.group(1) not in structs:
+                    structs.append(mm.group(1))
+        src = inc
+        # one wrapper record per map key / value: member v has exactly the declared key / value type
+        wrappers = []
+        for sym, (kt, vt) in sorted(maps_.items()):
+            for which in ("key", "value"):
+                w = "__verif_map_%s_%s" % (sym, which)
+                src += "struct %s { __typeof__(*%s.%s) v; };\n" % (w, sym, which)
+                wrappers.append((w, "map:%s:%s" % (sym, which), kt if which == "key" else vt))
+        wtype = {n: t for (w, n, t) in wrappers}
+        allrec = [("struct " + s_, s_) for s_ in structs] + [("struct " + w, n) for (w, n, _t) in wrappers]
+        src += "".join('_Static_assert(sizeof(%s) > 0, "");\n' % k for (k, _n) in allrec)
         for i, (n, d) in enumerate(sorted(CONSTS.items())):
             src += 'struct __verif_const_%d { %s; };\n_Static_assert(sizeof(struct __verif_const_%d) > 0, "");\n' % (i, d, i)
         blocks = _blocks(_clang(repo, src, ver, workdir))
-        members = []      # (struct, path, off, width or None)
-        for s in STRUCTS:
-            key = "struct " + s
+        members = []      # (record key, reported struct name, path, off, width or None)
+        for key, sname in allrec:
             if key not in blocks:
-                raise TranslateError("clang printed no layout for struct %s (ipver %d): the C definition is gone or renamed" % (s, ver))
+                raise TranslateError("clang printed no layout for %s (ipver %d): the C definition is gone or renamed" % (key, ver))
             rows, size = blocks[key]
-            ctotals.append((ver, s, size))
+            ctotals.append((ver, sname, size))
             stack = []    # names per depth (None for anonymous levels)
+            if sname.startswith("map:") and re.match(r"struct \w+$", wtype[sname]):
+                rows = rows[:1]   # the record itself is laid out under its own name; keep only member v
             for off, width, depth, typ, name in rows:
                 stack = stack[:depth - 1]
                 stack.append(name)
                 if name is None:
                     continue
                 path = ".".join(x for x in stack if x is not None)
-                members.append((s, path, off, width))
+                members.append((key, sname, path, off, width))
         for i, (n, d) in enumerate(sorted(CONSTS.items())):
             key = "struct __verif_const_%d" % i
             if key not in blocks:
                 raise TranslateError("no layout for constant %s" % n)
             ctotals.append((ver, n, blocks[key][1]))
-        # pass 2: sizeof every non-bit-field member path, straight from clang
-        src2 = "".join('#include "%s"\n' % h for h in HEADERS)
+        # pass 2: sizeof every non-bit-field member path, straight from clang (+ element size of array-typed values)
+        src2 = src
         idx = {}
-        for j, (s, path, off, width) in enumerate(members):
+        for j, (key, sname, path, off, width) in enumerate(members):
             if width is None:
                 idx[j] = "__verif_sz_%d" % j
-                src2 += "struct %s { __typeof__(((struct %s *)0)->%s) x; };\n_Static_assert(sizeof(struct %s) > 0, \"\");\n" % (idx[j], s, path, idx[j])
+                src2 += "struct %s { __typeof__(((%s *)0)->%s) x; };\n_Static_assert(sizeof(struct %s) > 0, \"\");\n" % (idx[j], key, path, idx[j])
+        arrays = [(w, n) for (w, n, t) in wrappers if t in ARRAY_TYPES]
+        for k, (w, n) in enumerate(arrays):
+            src2 += "struct __verif_el_%d { __typeof__(((struct %s *)0)->v[0]) x; };\n_Static_assert(sizeof(struct __verif_el_%d) > 0, \"\");\n" % (k, w, k)
         blocks2 = _blocks(_clang(repo, src2, ver, workdir))
-        for j, (s, path, off, width) in enumerate(members):
+        sizes = {}
+        for j, (key, sname, path, off, width) in enumerate(members):
             if width is None:
-                key = "struct " + idx[j]
-                if key not in blocks2:
-                    raise TranslateError("no size for %s.%s" % (s, path))
-                width = blocks2[key][1] * 8
-            crows.append((ver, s, path, off, width))
-        info[ver] = dict(structs=len(STRUCTS), members=len(members))
-    return crows, ctotals, info
+                k2 = "struct " + idx[j]
+                if k2 not in blocks2:
+                    raise TranslateError("no size for %s.%s" % (sname, path))
+                width = blocks2[k2][1] * 8
+            sizes[(sname, path)] = (off, width)
+            crows.append((ver, sname, path, off, width))
+        for k, (w, n) in enumerate(arrays):
+            el = blocks2["struct __verif_el_%d" % k][1] * 8
+            off, width = sizes[(n, "v")]
+            if el == 0 or width % el:
+                raise TranslateError("array value %s: element size does not divide the total" % n)
+            for i in range(width // el):
+                crows.append((ver, n, "v[%d]" % i, off + i * el, el))
+        info = dict(structs=len(structs), maps=len(maps_), members=len(members))
+    return crows, ctotals, info, maps_
 
 
 def go_view(lines):
-    grows, gtotals, notes = [], [], []
+    grows, gtotals, notes, gmaps = [], [], [], []
     for l in lines:
+        if "map" in l:
+            gmaps.append(l["map"])
+            continue
         if "row" in l:
             r = l["row"]
             grows.append((r["ipver"], r["struct"], r["field"], r["off"], r["size"], r.get("how", "")))
@@ -142,7 +209,7 @@ def go_view(lines):
             gtotals.append((t["ipver"], t["name"], t["size"]))
         elif "note" in l:
             notes.append(l["note"])
-    return grows, gtotals, notes
+    return grows, gtotals, notes, gmaps
 
 
 # ------------------------------------------------------------------------------------------------ mapping table
@@ -286,6 +353,55 @@ MAPPING = {
         "prefixlen": (["mask"], E), "set_id": (["set_id"], E), "addr": (["addr"], E), "port": (["port"], E),
         "proto": (["protocol"], E), "pad": (["pad"], E)}),
 }
+MAPPING.update({
+    "arp.Key": ("arp_key", {"NewKey.ip": (["ip"], E), "NewKey.ifIndex": (["ifindex"], E), "IP()": (["ip"], E), "IfIndex()": (["ifindex"], E)}),
+    "arp.Value": ("arp_value", {"NewValue.macSrc": (["mac_src"], E), "NewValue.macDst": (["mac_dst"], E),
+                                "SrcMAC()": (["mac_src"], E), "DstMAC()": (["mac_dst"], E)}),
+    "failsafes.Key": ("failsafe_key", {
+        "MakeKey.ipProto": (["ip_proto"], E), "MakeKey.port": (["port"], E),
+        "MakeKey.outbound": (["flags"], P),          # one flag bit (CALI_FSAFE_OUT) of the __u8
+        "MakeKey.ip": (["addr"], E), "MakeKey.mask": (["prefixlen"], P),   # LPM prefix length: small number
+        "KeyFromSlice.port": (["port"], E), "KeyFromSlice.proto": (["ip_proto"], E), "KeyFromSlice.flags": (["flags"], P),
+        "KeyFromSlice.addr": (["addr"], E), "KeyFromSlice.mask": (["prefixlen"], E)}),
+    "cleanupv1.Value": ("cali_ccq_value", {
+        "NewValue.key.proto": (["rev_key.protocol"], P), "NewValue.key.ipA": (["rev_key.addr_a"], E),
+        "NewValue.key.portA": (["rev_key.port_a"], E), "NewValue.key.ipB": (["rev_key.addr_b"], E),
+        "NewValue.key.portB": (["rev_key.port_b"], E), "NewValue.ts": (["last_seen"], E), "NewValue.rev_ts": (["rev_last_seen"], E),
+        "OtherNATKey().Proto()": (["rev_key.protocol"], P), "OtherNATKey().AddrA()": (["rev_key.addr_a"], E),
+        "OtherNATKey().PortA()": (["rev_key.port_a"], E), "OtherNATKey().AddrB()": (["rev_key.addr_b"], E),
+        "OtherNATKey().PortB()": (["rev_key.port_b"], E), "Timestamp()": (["last_seen"], E), "RevTimestamp()": (["rev_last_seen"], E)}),
+    "allowsources.Entry": ("allow_sources_key", {
+        "NewKey.cidr.addr": (["addr"], E), "NewKey.ifindex": (["ifindex"], E), "NewKey.cidr.prefix": (["prefixlen"], P),
+        "Addr()": (["addr"], E), "PrefixLen()": (["prefixlen"], E), "IfIndex()": (["ifindex"], E)}),
+    "ifstate.Key": (None, {"NewKey.ifIndex": (["v"], E), "IfIndex()": (["v"], E)}),
+    "ifstate.Value": ("ifstate_val", {
+        "NewValue.flags": (["flags"], E),
+        "NewValue.name": (["name"], P),        # 15 characters + the terminating NUL of char name[16]
+        "NewValue.xdpPolIPv4": (["xdp_policy_v4"], E), "NewValue.ingressPolIPv4": (["ingress_policy_v4"], E),
+        "NewValue.egressPolIPv4": (["egress_policy_v4"], E), "NewValue.xdpPolIPv6": (["xdp_policy_v6"], E),
+        "NewValue.ingressPolIPv6": (["ingress_policy_v6"], E), "NewValue.egressPolIPv6": (["egress_policy_v6"], E),
+        "NewValue.tcIngressFilter": (["tc_filter_ingress"], E), "NewValue.tcEgressFilter": (["tc_filter_egress"], E),
+        "Flags()": (["flags"], E), "IfName()": (["name"], E), "XDPPolicyV4()": (["xdp_policy_v4"], E),
+        "IngressPolicyV4()": (["ingress_policy_v4"], E), "EgressPolicyV4()": (["egress_policy_v4"], E),
+        "XDPPolicyV6()": (["xdp_policy_v6"], E), "IngressPolicyV6()": (["ingress_policy_v6"], E),
+        "EgressPolicyV6()": (["egress_policy_v6"], E), "TcIngressFilter()": (["tc_filter_ingress"], E),
+        "TcEgressFilter()": (["tc_filter_egress"], E)}),
+    "counters.Key": ("counters_key", {"NewKey.ifindex": (["ifindex"], E), "NewKey.hook": (["hook"], E), "IfIndex()": (["ifindex"], E)}),
+    # counters.Read decodes the low 32 bits of each 64-bit per-CPU counter
+    "counters.Value": (None, {"Read()[%d]" % i: (["v[%d]" % i], P) for i in range(64)}),
+    "counters.PolicyKey": (None, {"PolicyMapMemIter.key": (["v"], E)}),
+    "counters.PolicyValue": (None, {"PolicyMapMemIter.value": (["v"], E)}),
+    "qos.Key": ("calico_qos_key", {"NewKey.ifIndex": (["ifindex"], E), "NewKey.ingress": (["ingress"], E), "NewKey.family": (["family"], E),
+                                   "IfIndex()": (["ifindex"], E), "Ingress()": (["ingress"], E), "Family()": (["family"], E)}),
+    "qos.Value": ("calico_qos_val", {
+        "NewValue.packetRate": (["packet_rate"], E), "NewValue.packetBurst": (["packet_burst"], E),
+        "NewValue.packetRateTokens": (["packet_rate_tokens"], E), "NewValue.packetRateLastUpdate": (["packet_rate_last_update"], E),
+        "PacketRate()": (["packet_rate"], E), "PacketBurst()": (["packet_burst"], E), "PacketRateTokens()": (["packet_rate_tokens"], E),
+        "PacketRateLastUpdate()": (["packet_rate_last_update"], E)}),
+    "qos.ConnValue": ("calico_qos_conn_val", {
+        "NewConnValue.maxConnections": (["max_connections"], E), "NewConnValue.currentCount": (["current_count"], E),
+        "MaxConnections()": (["max_connections"], E), "CurrentCount()": (["current_count"], E)}),
+})
 # generated programs: the builder's own annotation "state->X" names the C member; exceptions to Exact:
 STATE_ACCESS_SPECIAL = {
     "state->rules_hit": (["rules_hit"], P),              # 8-bit load/store of the (<= 32) hit counter held in a __u32
@@ -312,10 +428,21 @@ TOTALS = {   # Go total -> C struct / constant whose sizeof it must equal (both 
     "routes.ValueSize": "cali_rt", "routes.MapParameters.ValueSize": "cali_rt",
     "state.MapParameters.KeySize": "__u32", "state.MapParameters.ValueSize": "STATE_SIZE",
 }
-TOTALS_V4_ONLY = {"sizeof(state.State)": "cali_tc_state", "len(state.State.AsBytes())": "cali_tc_state"}
-# the builder reserves one stack slot of the IPv6 key size for both families
+TOTALS.update({
+    "arp.KeySize": "arp_key", "arp.ValueSize": "arp_value",
+    "failsafes.KeySize": "failsafe_key", "failsafes.ValueSize": "failsafe_val", "len(failsafes.Value())": "failsafe_val",
+    "len(failsafes.Key.ToSlice())": "failsafe_key",
+    "cleanupv1.KeySize": "calico_ct_key", "cleanupv1.ValueSize": "cali_ccq_value",
+    "allowsources.KeySize": "allow_sources_key",
+    "ifstate.KeySize": "__u32", "len(ifstate.Key)": "__u32", "ifstate.ValueSize": "ifstate_val",
+    "len(counters.Key)": "counters_key", "counters.MaxCounterNumber": "MAX_COUNTERS_SIZE",
+    "len(qos.Key)": "calico_qos_key", "len(qos.Value)": "calico_qos_val", "len(qos.ConnValue)": "calico_qos_conn_val",
+    # the Go mirror struct of struct cali_tc_state: compared against BOTH builds of the C struct
+    "sizeof(state.State)": "cali_tc_state", "len(state.State.AsBytes())": "cali_tc_state",
+})
+# the builder reserves one stack slot (of the IPv6 key size) per IP set key for both families: it must hold the key
+TOTALS_GE = {(4, "polprog.ipSetKeyStackSlot"): "ip_set_key"}
 TOTALS_V6_ONLY = {"polprog.ipSetKeyStackSlot": "ip_set_key"}
-TOTALS_NOT_COMPARED = {(6, "sizeof(state.State)"), (6, "len(state.State.AsBytes())"), (4, "polprog.ipSetKeyStackSlot")}
 
 
 def referenced_state_fields(repo, names):
@@ -348,10 +475,40 @@ def declared_state_off_vars(repo):
         sorted(set(re.findall(r"^\s*(ipsKey\w+)\s+int16\s*=", src, flags=re.M)))
 
 
-def build_mapping(repo, grows):
+def derive_pairing(gmaps, cmaps):
+    """Go codec type -> {ver: C struct / wrapper name} read off the CALI_MAP declaration of the C map that has the
+    same (versioned) name as the Go map.  Also returns the failed pairings."""
+    derived, problems = {}, []
+    for g in gmaps:
+        ver, sym = g["ipver"], g["sym"]
+        if sym not in cmaps.get(ver, {}):
+            problems.append("Go map %s (ipver %d) has no CALI_MAP declaration of that name in the bpf-gpl headers" % (sym, ver))
+            continue
+        for which, gs in (("key", g["key_struct"]), ("value", g["value_struct"])):
+            if not gs:
+                continue
+            t = cmaps[ver][sym][0 if which == "key" else 1]
+            mm = re.match(r"struct (\w+)$", t)
+            cs = mm.group(1) if mm else "map:%s:%s" % (sym, which)
+            prev = derived.setdefault(gs, {}).get(ver)
+            # scalar-typed keys/values of different maps live in different wrappers: any of them will do
+            if prev is not None and prev != cs and not (prev.startswith("map:") and cs.startswith("map:")):
+                problems.append("Go type %s is paired with both C %s and C %s (ipver %d)" % (gs, prev, cs, ver))
+            derived[gs].setdefault(ver, cs)
+    return derived, problems
+
+
+def build_mapping(repo, grows, gmaps=(), cmaps=None):
     """returns (mrows, dropped, problems): mrows = [(ver, gstruct, gfield, cstruct, [paths], rel)];
     dropped = Go rows deliberately not obligations (with the reason); problems = translator-level failed obligations."""
     mrows, dropped, problems = [], [], []
+    derived, dprob = derive_pairing(gmaps, cmaps or {})
+    problems += dprob
+    for gs, (hand, _tab) in MAPPING.items():
+        for ver, cs in derived.get(gs, {}).items():
+            if hand is not None and hand != cs:
+                problems.append("pairing: the hand table says Go %s <-> C struct %s but the C declaration of its map uses %s (ipver %d)"
+                                % (gs, hand, cs, ver))
     seen = set()
     tail_used = referenced_state_fields(repo, list(STATE_TAIL))
     for (ver, gs, gf, off, size, how) in grows:
@@ -380,7 +537,8 @@ def build_mapping(repo, grows):
                 ent = ("cali_tc_state", ([lbl[len("state->"):]], O))
         elif gs in MAPPING:
             cs, tab = MAPPING[gs]
-            if gf in tab:
+            cs = derived.get(gs, {}).get(ver, cs)     # the C declaration decides; the hand table is cross-checked above
+            if gf in tab and cs is not None:
                 ent = (cs, tab[gf])
         if ent is None:
             continue            # no mapping line: the row fails inside Coq (find_m = None)
@@ -397,17 +555,23 @@ def build_mapping(repo, grows):
     return mrows, dropped, problems
 
 
-def build_total_mapping(gtotals):
+def build_total_mapping(gtotals, gmaps=()):
+    """returns (go totals incl. the per-map key/value sizes, tmrows [(ver, go name, c name, ge)], not compared)"""
+    gt = list(gtotals)
     tm = []
-    dropped = []
+    for g in gmaps:
+        for which, k in (("key", "key_size"), ("value", "value_size")):
+            n = "map %s %s size" % (g["sym"], which)
+            gt.append((g["ipver"], n, g[k]))
+            tm.append((g["ipver"], n, "map:%s:%s" % (g["sym"], which), False))
     for (ver, name, size) in gtotals:
-        if (ver, name) in TOTALS_NOT_COMPARED:
-            dropped.append((ver, name, size))
+        if (ver, name) in TOTALS_GE:
+            tm.append((ver, name, TOTALS_GE[(ver, name)], True))
             continue
-        c = TOTALS.get(name) or (TOTALS_V4_ONLY.get(name) if ver == 4 else TOTALS_V6_ONLY.get(name))
+        c = TOTALS.get(name) or (TOTALS_V6_ONLY.get(name) if ver == 6 else None)
         if c:
-            tm.append((ver, name, c))
-    return tm, dropped
+            tm.append((ver, name, c, False))
+    return gt, tm, []
 
 
 # ------------------------------------------------------------------------------------------------ Coq output
@@ -429,7 +593,7 @@ def gen_text(crows, grows, mrows, ctotals, gtotals, tmrows, header=""):
         for (v, gs, gf, cs, ps, rel) in mrows) + "\n].\n")
     o.append("Definition c_totals : list trow := [\n" + ";\n".join("  TRow %d %s %d" % (v, _s(n), sz) for (v, n, sz) in ctotals) + "\n].\n")
     o.append("Definition g_totals : list trow := [\n" + ";\n".join("  TRow %d %s %d" % (v, _s(n), sz) for (v, n, sz) in gtotals) + "\n].\n")
-    o.append("Definition tm_rows : list tmrow := [\n" + ";\n".join("  TMRow %d %s %s" % (v, _s(g), _s(c)) for (v, g, c) in tmrows) + "\n].\n")
+    o.append("Definition tm_rows : list tmrow := [\n" + ";\n".join("  TMRow %d %s %s %s" % (v, _s(g), _s(c), "true" if ge else "false") for (v, g, c, ge) in tmrows) + "\n].\n")
     o.append("Definition tables : tables := Tables c_rows g_rows m_rows c_totals g_totals tm_rows.\n")
     return "\n".join(o)
 
